@@ -149,6 +149,24 @@ void md_case(Ctx &c) {
                 mc.family = "big_dense_grid";
                 u = std::min<T>(maxc, T((T(1) << (3 + r.below(4))) - 1));
                 n = (size_t(1) << 15) + r.below(size_t(1) << 15);
+                if (r.chance(1, 2)) {
+                    // lopsided universe: an independent bit width per axis (0..12 bits), so that the position of the highest
+                    // set bit of the largest Morton code takes every value, byte and digit boundaries included
+                    mc.family = "big_lopsided_grid";
+                    P lim;
+                    u = 0;
+                    for (size_t d = 0; d < D; ++d) {
+                        lim[d] = T(std::min<uint64_t>(maxc, (uint64_t(1) << r.below(13)) - 1));
+                        u = std::max(u, lim[d]);
+                    }
+                    for (size_t i = 0; i < n; ++i) {
+                        P p;
+                        for (size_t d = 0; d < D; ++d) p[d] = T(r.below(uint64_t(lim[d]) + 1));
+                        mc.pts.push_back(p);
+                    }
+                    mc.pts[0] = lim; // the corner itself is stored
+                    break;
+                }
                 for (size_t i = 0; i < n; ++i) mc.pts.push_back(rnd_pt(u));
                 break;
             }
@@ -310,7 +328,16 @@ void md_case(Ctx &c) {
         bool fits = true;
         for (auto &p : mc.pts)
             for (size_t d = 0; d < D; ++d) fits = fits && uint64_t(p[d]) <= uint64_t(std::numeric_limits<U>::max());
-        if (fits && mix(c.input_hash, 0x7a77) % 3 == 0) {
+        bool as_pairs = false;
+        if constexpr (D == 2) as_pairs = mix(c.input_hash, 0x9a1f) % 5 == 0;
+        if (as_pairs) {
+            if constexpr (D == 2) { // a 2-dimensional index also accepts a range of std::pair
+                std::vector<std::pair<T, T>> pp;
+                for (auto &p : mc.pts) pp.emplace_back(p[0], p[1]);
+                xp.reset(new Idx(pp.begin(), pp.end()));
+                c.count("built_from_pairs");
+            }
+        } else if (fits && mix(c.input_hash, 0x7a77) % 3 == 0) {
             std::vector<decltype(to_tuple_as<U, T, D>(mc.pts[0]))> np;
             for (auto &p : mc.pts) np.push_back(to_tuple_as<U, T, D>(p));
             xp.reset(new Idx(np.begin(), np.end()));
